@@ -152,6 +152,8 @@ class FVAnalysis:
                 return
             if nm in ("begin", "end", "cbegin", "cend", "rbegin", "rend", "crbegin", "crend", "data", "size", "capacity", "empty", "front", "back", "at"):
                 return
+            if self.summarise_call(za, z, n, nm):
+                return
             z.forget("size_")
             z.forget(W)
             invariant(z)
@@ -162,6 +164,64 @@ class FVAnalysis:
                 v = za.varname(a)
                 if v:
                     z.forget(v)
+
+    def summarise_call(self, za, z, n, nm):
+        """a private/inline helper of the class called on *this: analyse its body with the caller's knowledge about
+        size_/capacity_ as precondition and continue with its postcondition (a helper that only checks and raises then
+        contributes its guard; a helper that bumps size_ contributes that). False if no analysable callee."""
+        depth = getattr(self, "depth", 0)
+        if depth >= 2:
+            return False
+        args = [a for a in n.get("args", []) if not (isinstance(a, dict) and a.get("k") == "defarg")]
+        cands = [g for g in self.ctx.prog.methods_of(FV) if g.has_cfg and g.is_pattern and g.name == nm and len(g.params) == len(args) and g.id != self.fn.id]
+        if len(cands) != 1:
+            return False
+        callee = cands[0]
+        if _is_range_op(callee) or callee.kind == "ctor":
+            return False
+        keep = {"size_", "capacity_", Z}
+        z.close()
+        zin = Zone()
+        for (x, y), c in z.d.items():
+            if x in keep and y in keep:
+                zin.add(x, y, c)
+        for p, a in zip(callee.params, args):
+            t = za.lin(a)
+            if t and t[0] in keep and p.get("name"):
+                zin.add(p["name"], t[0], t[1])
+                zin.add(t[0], p["name"], -t[1])
+            if p.get("u") and p.get("name"):
+                zin.add(Z, p["name"], 0)
+        zin.close()
+        sub = FVAnalysis(self.ctx, callee, self.cls)
+        sub.depth = depth + 1
+        try:
+            IN = sub.za.run(zin, None)
+        except RuntimeError:
+            return False
+        out = None
+        for b in callee.return_blocks():
+            if b not in IN:
+                continue
+            zz = IN[b].copy()
+            for e in callee.elems(b):
+                sub.za.transfer(zz, e, None)
+            zz.close()
+            if zz.bottom:
+                continue
+            out = zz if out is None else out.join(zz)
+        if out is None:
+            z.bottom = True  # the helper never returns normally on this path
+            return True
+        out.close()
+        if _writes_size(self.ctx, callee, 0):
+            z.forget("size_")
+            z.forget(W)
+        for (x, y), c in out.d.items():
+            if x in keep and y in keep:
+                z.add(x, y, c)
+        z.close()
+        return True
 
     def on_store(self, za, z, node):
         idx = storage_subscript(node)
@@ -453,6 +513,24 @@ def run(ctx):
         ctx.check(rets == ["%s.at(I)" % pn], "R06.4", f, "get-is-checked", "std::get<I> returns %s instead of the checked %s.at(I)" % (rets, pn), f)
     ctx.trust("std::unique_ptr<T[]> destroys every element exactly once (Appendix D.3)")
     ctx.assume("element-type behaviour (throwing copies/moves) is covered only through R06.5/R06.6's ordering argument")
+
+
+def _writes_size(ctx, f, depth):
+    for bid, i, e in f.roots():
+        for n in walk(e["expr"], into_sc=False):
+            if n.get("k") == "un" and n["op"] in ("++pre", "++post", "--pre", "--post") and fmt(n["e"]) == "size_":
+                return True
+            if n.get("k") == "bin" and n["op"] in ("=", "+=", "-=") and fmt(n["l"]) == "size_":
+                return True
+            if n.get("k") == "call" and short(n.get("name") or "") in ("swap",) and "size_" in fmt(n):
+                return True
+            if n.get("k") == "call" and depth < 2 and (is_this(n.get("this")) if n.get("this") is not None else n.get("dep")):
+                nm = short(n.get("name") or "")
+                for g in ctx.prog.methods_of(FV):
+                    if g.has_cfg and g.is_pattern and g.name == nm and g.id != f.id and nm not in ("begin", "end", "size", "capacity", "replace"):
+                        if _writes_size(ctx, g, depth + 1):
+                            return True
+    return False
 
 
 def _is_fv_object(p):
